@@ -353,8 +353,8 @@ def r1_conservation(ctx):
         ctx.check(s.fn.key in allowed, 'explicit-drop-site:%s' % s.fn.key, 'messages are explicitly dropped only by the channel policy and the inactive-owner transit rule', s.where())
 
 
-def r2_admission(ctx):
-    ctx.set_rule('C07.R2')
+def r2_admission(ctx, rule='C07.R2'):
+    ctx.set_rule(rule)
     f = ctx.anchor(CH + 'Channel::send_message')
     hs = ctx.P.scope_of(CH + 'ChannelDropBehaviour::handle')
     if not f or not ctx.floor('function applying the drop/queue policy', len(hs), 1):
